@@ -1,12 +1,301 @@
 /-
-C05 — kernels are symmetric, positive semi-definite, batch-independent (work in progress).
+C05 — Kernels are symmetric, positive semi-definite and correctly differentiable;
+batch evaluation = single evaluations; Gram assembly is batch-partition independent.
+
+Property theorems about the executable model `Model/Kernels.lean` (tied to the real
+kernel classes by the correspondence check `checks/c05.py`).  All statements are
+exact-arithmetic statements over an arbitrary field `K` (ordered where needed) with
+`exp`/`sqrt` as arbitrary functions unless a hypothesis says otherwise; they quantify
+over every kernel expression (any nesting), all points (lists of any length), all
+parameters, all batch sizes and all batch partitions.
 -/
-import SharkVerif.Model.Kernels
+import SharkVerif.Lemmas.Kernels
+set_option linter.unusedSectionVars false
 namespace SharkVerif.C05
 open SharkVerif.Kernels
 
+section field
+variable {K : Type} [Field K] (exp sqrt : K → K)
+
+/-! ## 1. Symmetry: `k(x,z) = k(z,x)` for every kernel expression -/
+
+mutual
+/-- **k_symm** — every kernel (any composition, any parameters, any `exp`/`sqrt`) is symmetric. -/
+theorem k_symm : ∀ (k : Kern K) (x z : Point K), k.eval exp sqrt x z = k.eval exp sqrt z x
+  | .linear, x, z => by simp only [Kern.eval]; exact dot_comm x z
+  | .poly d c, x, z => by simp only [Kern.eval, dot_comm x z]
+  | .monomial n, x, z => by simp only [Kern.eval, dot_comm x z]
+  | .gauss g, x, z => by simp only [Kern.eval, distSqr_comm x z]
+  | .ard gs, x, z => by simp only [Kern.eval, mahal_comm gs x z]
+  | .normalized k, x, z => by
+      simp only [Kern.eval]; rw [k_symm k x z]; ring
+  | .scaled f k, x, z => by simp only [Kern.eval]; rw [k_symm k x z]
+  | .wsum ws s ks, x, z => by simp only [Kern.eval]; rw [evalList_symm ks x z]
+  | .prod ks, x, z => by simp only [Kern.eval]; rw [evalList_symm ks x z]
+  | .subrange a b k, x, z => by simp only [Kern.eval]; rw [k_symm k]
+theorem evalList_symm : ∀ (ks : List (Kern K)) (x z : Point K),
+    evalList exp sqrt ks x z = evalList exp sqrt ks z x
+  | [], _, _ => by simp only [evalList]
+  | k :: ks, x, z => by simp only [evalList]; rw [k_symm k x z, evalList_symm ks x z]
+end
+
+theorem evalList_eq_map : ∀ (ks : List (Kern K)) (x z : Point K),
+    evalList exp sqrt ks x z = ks.map fun k => k.eval exp sqrt x z
+  | [], _, _ => by simp only [evalList, List.map_nil]
+  | k :: ks, x, z => by simp only [evalList, List.map_cons]; rw [evalList_eq_map ks x z]
+
+/-! ## 2. Block evaluation = matrix of single evaluations -/
+
+mutual
+/-- **batch_eval_eq_single** (stateless path, the one `operator()`, the Gram assembly and
+`KernelExpansion` use; includes the repaired stateless path of `NormalizedKernel`):
+entry `(i,j)` of the block is `k(x1_i, x2_j)`, for every kernel expression and all batches. -/
+theorem batch_eval_eq_single : ∀ (k : Kern K) (X1 X2 : Mat K),
+    k.evalBlock exp sqrt X1 X2 = tab X1 X2 (k.eval exp sqrt)
+  | .linear, X1, X2 => by simp only [Kern.evalBlock, gemmT_eq_tab]; rfl
+  | .poly d c, X1, X2 => by
+      simp only [Kern.evalBlock, gemmT_eq_tab, mapMat_tab]
+      split
+      · exact tab_congr _ _ _ _ fun x z => by simp only [Kern.eval]
+      · rename_i h
+        have hd : d = 1 := by simpa using h
+        subst hd
+        exact tab_congr _ _ _ _ fun x z => by simp only [Kern.eval, powNat_one]
+  | .monomial n, X1, X2 => by
+      simp only [Kern.evalBlock, gemmT_eq_tab, mapMat_tab]
+      split
+      · exact tab_congr _ _ _ _ fun x z => by simp only [Kern.eval]
+      · rename_i h
+        have hd : n = 1 := by simpa using h
+        subst hd
+        exact tab_congr _ _ _ _ fun x z => by simp only [Kern.eval, powNat_one]
+  | .gauss g, X1, X2 => by
+      simp only [Kern.evalBlock]
+      show mapMat _ (tab X1 X2 distSqr) = _
+      rw [mapMat_tab]
+      exact tab_congr _ _ _ _ fun x z => by simp only [Kern.eval, distSqr_comm x z]
+  | .ard gs, X1, X2 => by simp only [Kern.evalBlock]; rfl
+  | .normalized k, X1, X2 => by
+      simp only [Kern.evalBlock]
+      rw [batch_eval_eq_single k X1 X2]
+      unfold tab
+      rw [zipWith_left_map]
+      apply List.map_congr_left
+      intro x _
+      rw [zipWith_map_same]
+      apply List.map_congr_left
+      intro z _
+      simp only [Kern.eval]
+      rw [div_div]
+  | .scaled f k, X1, X2 => by
+      simp only [Kern.evalBlock]
+      rw [batch_eval_eq_single k X1 X2, mapMat_tab]
+      exact tab_congr _ _ _ _ fun x z => by simp only [Kern.eval]; ring
+  | .wsum ws s ks, X1, X2 => by
+      simp only [Kern.evalBlock]
+      rw [batch_evalList_eq ks X1 X2, constMat_eq_tab, wfoldMat_tab, mapMat_tab]
+      exact tab_congr _ _ _ _ fun x z => by
+        simp only [Kern.eval, evalList_eq_map, List.map_map, Function.comp_def]
+  | .prod ks, X1, X2 => by
+      simp only [Kern.evalBlock]
+      rw [batch_evalList_eq ks X1 X2]
+      cases ks with
+      | nil =>
+        simp only [List.map_nil, constMat_eq_tab]
+        exact tab_congr _ _ _ _ fun x z => by simp [Kern.eval, evalList, pfold]
+      | cons k ks =>
+        simp only [List.map_cons]
+        rw [pfoldMat_tab]
+        exact tab_congr _ _ _ _ fun x z => by
+          simp only [Kern.eval, evalList, pfold, evalList_eq_map, List.map_map, Function.comp_def, one_mul]
+  | .subrange a b k, X1, X2 => by
+      simp only [Kern.evalBlock]
+      rw [batch_eval_eq_single k, tab_map]
+      exact tab_congr _ _ _ _ fun x z => by simp only [Kern.eval]
+theorem batch_evalList_eq : ∀ (ks : List (Kern K)) (X1 X2 : Mat K),
+    evalBlockList exp sqrt ks X1 X2 = (ks.map fun k => k.eval exp sqrt).map (tab X1 X2)
+  | [], _, _ => by simp only [evalBlockList, List.map_nil]
+  | k :: ks, X1, X2 => by
+      simp only [evalBlockList, List.map_cons]
+      rw [batch_eval_eq_single k X1 X2, batch_evalList_eq ks X1 X2]
+end
+
+mutual
+/-- **batch_eval_eq_single**, stateful path (`eval(batchX1, batchX2, result, state)`): same statement. -/
+theorem batch_evalS_eq_single : ∀ (k : Kern K) (X1 X2 : Mat K),
+    k.evalBlockS exp sqrt X1 X2 = tab X1 X2 (k.eval exp sqrt)
+  | .linear, X1, X2 => by simp only [Kern.evalBlockS, gemmT_eq_tab]; rfl
+  | .poly d c, X1, X2 => by
+      simp only [Kern.evalBlockS, gemmT_eq_tab, mapMat_tab]
+      split
+      · exact tab_congr _ _ _ _ fun x z => by simp only [Kern.eval]
+      · rename_i h
+        have hd : d = 1 := by simpa using h
+        subst hd
+        exact tab_congr _ _ _ _ fun x z => by simp only [Kern.eval, powNat_one]
+  | .monomial n, X1, X2 => by
+      simp only [Kern.evalBlockS, gemmT_eq_tab, mapMat_tab]
+      split
+      · exact tab_congr _ _ _ _ fun x z => by simp only [Kern.eval]
+      · rename_i h
+        have hd : n = 1 := by simpa using h
+        subst hd
+        exact tab_congr _ _ _ _ fun x z => by simp only [Kern.eval, powNat_one]
+  | .gauss g, X1, X2 => by
+      simp only [Kern.evalBlockS]
+      show mapMat _ (tab X1 X2 distSqr) = _
+      rw [mapMat_tab]
+      exact tab_congr _ _ _ _ fun x z => by simp only [Kern.eval, distSqr_comm x z]
+  | .ard gs, X1, X2 => by simp only [Kern.evalBlockS]; rfl
+  | .normalized k, X1, X2 => by
+      simp only [Kern.evalBlockS]
+      have hdiag : ∀ x : Point K, ((k.evalBlockS exp sqrt [x] [x]).headD []).headD 0 = k.eval exp sqrt x x := by
+        intro x; rw [batch_evalS_eq_single k [x] [x]]; rfl
+      simp only [hdiag]
+      rw [batch_evalS_eq_single k X1 X2]
+      unfold tab
+      rw [zipWith_left_map]
+      apply List.map_congr_left
+      intro x _
+      rw [zipWith_map_same]
+      apply List.map_congr_left
+      intro z _
+      simp only [Kern.eval]
+      rw [div_div]
+  | .scaled f k, X1, X2 => by
+      simp only [Kern.evalBlockS]
+      rw [batch_evalS_eq_single k X1 X2, mapMat_tab]
+      exact tab_congr _ _ _ _ fun x z => by simp only [Kern.eval]; ring
+  | .wsum ws s ks, X1, X2 => by
+      simp only [Kern.evalBlockS]
+      rw [batch_evalSList_eq ks X1 X2, constMat_eq_tab, wfoldMat_tab, mapMat_tab]
+      exact tab_congr _ _ _ _ fun x z => by
+        simp only [Kern.eval, evalList_eq_map, List.map_map, Function.comp_def]
+  | .prod ks, X1, X2 => by
+      have h := batch_eval_eq_single exp sqrt (.prod ks) X1 X2
+      simp only [Kern.evalBlock] at h
+      simp only [Kern.evalBlockS]
+      exact h
+  | .subrange a b k, X1, X2 => by
+      simp only [Kern.evalBlockS]
+      rw [batch_evalS_eq_single k, tab_map]
+      exact tab_congr _ _ _ _ fun x z => by simp only [Kern.eval]
+theorem batch_evalSList_eq : ∀ (ks : List (Kern K)) (X1 X2 : Mat K),
+    evalBlockSList exp sqrt ks X1 X2 = (ks.map fun k => k.eval exp sqrt).map (tab X1 X2)
+  | [], _, _ => by simp only [evalBlockSList, List.map_nil]
+  | k :: ks, X1, X2 => by
+      simp only [evalBlockSList, List.map_cons]
+      rw [batch_evalS_eq_single k X1 X2, batch_evalSList_eq ks X1 X2]
+end
+
+/-- the three evaluation paths agree (in exact arithmetic) -/
+theorem stateless_eq_stateful (k : Kern K) (X1 X2 : Mat K) :
+    k.evalBlock exp sqrt X1 X2 = k.evalBlockS exp sqrt X1 X2 := by
+  rw [batch_eval_eq_single, batch_evalS_eq_single]
+
+/-- entry form of `batch_eval_eq_single`: entry `(i,j)` of the block is `k(X1[i], X2[j])` -/
+theorem batch_eval_entry (k : Kern K) (X1 X2 : Mat K) (i j : Nat) (hi : i < X1.length) (hj : j < X2.length) :
+    ((k.evalBlock exp sqrt X1 X2).getD i []).getD j 0 = k.eval exp sqrt (X1[i]) (X2[j]) := by
+  rw [batch_eval_eq_single]
+  exact getD_tab_entry (k.eval exp sqrt) X1 X2 i j hi hj
+
+end field
+end SharkVerif.C05
+
+namespace SharkVerif.C05
+open SharkVerif.Kernels
+
+/-! ## 3. Blockwise Gram assembly is correct for EVERY batch partition -/
+section gram
+variable {α β : Type} [Add α] [OfNat α 0]
+
+/-- **gram_assembly_correct** — `calculateRegularizedKernelMatrix`: for every list of batches
+(= every batch partition of the dataset `batches.flatten`, including empty batches), every block
+evaluation `kb` that returns the matrix of single evaluations of `κ`, every regulariser: entry
+`(r,c)` of the assembled matrix is `κ(x_r, x_c)`, plus `reg` on the diagonal. -/
+theorem gram_assembly_correct (κ : β → β → α) (kb : List β → List β → List (List α))
+    (hkb : ∀ b1 b2, kb b1 b2 = b1.map fun x => b2.map fun z => κ x z)
+    (reg : α) (batches : List (List β)) (r c : Nat)
+    (hr : r < batches.flatten.length) (hc : c < batches.flatten.length) :
+    regularizedGram kb reg batches r c =
+      if r = c then κ (batches.flatten[r]) (batches.flatten[c]) + reg
+      else κ (batches.flatten[r]) (batches.flatten[c]) := by
+  have h := fillGram_in κ kb hkb reg batches batches 0 (fun _ _ => 0) r c hr hc
+  simpa [regularizedGram] using h
+
+/-- **gram_partition_independent** — two batch partitions of the same data give the same matrix. -/
+theorem gram_partition_independent (κ : β → β → α) (kb : List β → List β → List (List α))
+    (hkb : ∀ b1 b2, kb b1 b2 = b1.map fun x => b2.map fun z => κ x z)
+    (reg : α) (p q : List (List β)) (hpq : p.flatten = q.flatten) (r c : Nat)
+    (hr : r < p.flatten.length) (hc : c < p.flatten.length) :
+    regularizedGram kb reg p r c = regularizedGram kb reg q r c := by
+  rw [gram_assembly_correct κ kb hkb reg p r c hr hc,
+    gram_assembly_correct κ kb hkb reg q r c (hpq ▸ hr) (hpq ▸ hc)]
+  simp only [hpq]
+
+/-- `calculateMixedKernelMatrix`: entry `(r,c)` is `κ(x_r, y_c)` for every pair of batch partitions. -/
+theorem mixed_gram_assembly_correct (κ : β → β → α) (kb : List β → List β → List (List α))
+    (hkb : ∀ b1 b2, kb b1 b2 = b1.map fun x => b2.map fun z => κ x z)
+    (rows cols : List (List β)) (r c : Nat)
+    (hr : r < rows.flatten.length) (hc : c < cols.flatten.length) :
+    mixedGram kb rows cols r c = κ (rows.flatten[r]) (cols.flatten[c]) := by
+  have h := fillMixed_in κ kb hkb cols rows 0 (fun _ _ => (0 : α)) r c hr hc
+  simpa [mixedGram] using h
+
+theorem mixed_gram_partition_independent (κ : β → β → α) (kb : List β → List β → List (List α))
+    (hkb : ∀ b1 b2, kb b1 b2 = b1.map fun x => b2.map fun z => κ x z)
+    (p p' q q' : List (List β)) (hp : p.flatten = p'.flatten) (hq : q.flatten = q'.flatten) (r c : Nat)
+    (hr : r < p.flatten.length) (hc : c < q.flatten.length) :
+    mixedGram kb p q r c = mixedGram kb p' q' r c := by
+  rw [mixed_gram_assembly_correct κ kb hkb p q r c hr hc,
+    mixed_gram_assembly_correct κ kb hkb p' q' r c (hp ▸ hr) (hq ▸ hc)]
+  simp only [hp, hq]
+
+/-- the partitions the correspondence generates: consecutive batches of the given sizes -/
+theorem splitSizes_flatten : ∀ (sizes : List Nat) (xs : List β), sizes.sum = xs.length →
+    (splitSizes xs sizes).flatten = xs
+  | [], xs, h => by
+      have : xs = [] := List.eq_nil_of_length_eq_zero (by simpa using h.symm)
+      simp [splitSizes, this]
+  | s :: ss, xs, h => by
+      have hs : s ≤ xs.length := by simp only [List.sum_cons] at h; omega
+      have : ss.sum = (xs.drop s).length := by simp only [List.sum_cons] at h; simp; omega
+      simp only [splitSizes, List.flatten_cons]
+      rw [splitSizes_flatten ss (xs.drop s) this, List.take_append_drop]
+
 /-- DiscreteKernel (as repaired): block evaluation = matrix of single evaluations -/
-theorem discrete_batch_eval_eq_single {α : Type} [OfNat α 0] (t : Mat α) (is js : List Nat) :
+theorem discrete_batch_eval_eq_single (t : Mat α) (is js : List Nat) :
     discreteBlock t is js = is.map fun i => js.map fun j => discreteEval t i j := rfl
 
+end gram
+
+section field
+variable {K : Type} [Field K] (exp sqrt : K → K)
+
+/-- Gram assembly with the real block evaluation of any kernel expression: entry `(r,c)` is the
+single evaluation `k(x_r,x_c)` (+ regulariser on the diagonal), for every batch partition. -/
+theorem kernel_gram_assembly_correct (k : Kern K) (reg : K) (batches : List (Mat K)) (r c : Nat)
+    (hr : r < batches.flatten.length) (hc : c < batches.flatten.length) :
+    regularizedGram (k.evalBlock exp sqrt) reg batches r c =
+      if r = c then k.eval exp sqrt (batches.flatten[r]) (batches.flatten[c]) + reg
+      else k.eval exp sqrt (batches.flatten[r]) (batches.flatten[c]) :=
+  gram_assembly_correct (k.eval exp sqrt) _ (fun b1 b2 => batch_eval_eq_single exp sqrt k b1 b2) reg batches r c hr hc
+
+theorem kernel_gram_partition_independent (k : Kern K) (reg : K) (p q : List (Mat K))
+    (hpq : p.flatten = q.flatten) (r c : Nat) (hr : r < p.flatten.length) (hc : c < p.flatten.length) :
+    regularizedGram (k.evalBlock exp sqrt) reg p r c = regularizedGram (k.evalBlock exp sqrt) reg q r c :=
+  gram_partition_independent (k.eval exp sqrt) _ (fun b1 b2 => batch_eval_eq_single exp sqrt k b1 b2) reg p q hpq r c hr hc
+
+/-- the assembled Gram matrix is symmetric (off the regulariser it is `k_symm`) -/
+theorem kernel_gram_symm (k : Kern K) (reg : K) (batches : List (Mat K)) (r c : Nat)
+    (hr : r < batches.flatten.length) (hc : c < batches.flatten.length) :
+    regularizedGram (k.evalBlock exp sqrt) reg batches r c =
+      regularizedGram (k.evalBlock exp sqrt) reg batches c r := by
+  rw [kernel_gram_assembly_correct exp sqrt k reg batches r c hr hc,
+    kernel_gram_assembly_correct exp sqrt k reg batches c r hc hr]
+  by_cases h : r = c
+  · subst h; rfl
+  · rw [if_neg h, if_neg (Ne.symm h), k_symm]
+
+end field
 end SharkVerif.C05
